@@ -15,5 +15,6 @@ let table : (string * (Model.z list list -> Model.z list list)) list = [
   "locale", Model.locale_run;
   "path", Model.path_run;
   "file", Model.file_run;
+  "pool", Model.pool_run;
   "localespec", Model.locale_spec_run;
 ]
